@@ -1136,6 +1136,14 @@ class Interp:
 
     def e_BoolOp(self, node, env):
         isand = isinstance(node.op, ast.And)
+        if getattr(self, "nofork", False):
+            # side-effect-free boolean combination without forking (used for filter conditions over
+            # symbolic sequences): all operands must be plain booleans
+            vals = [self.eval(e, env) for e in node.values]
+            if all(isinstance(v, (bool, SBool)) for v in vals):
+                ts = [term(v) for v in vals]
+                return wrap(z3.And(*ts) if isand else z3.Or(*ts))
+            raise Undecided("non-boolean operand in a filter condition over a symbolic sequence")
         v = None
         for e in node.values:
             v = self.eval(e, env)
@@ -1331,7 +1339,11 @@ class Interp:
             acc = []
             before = len(ctx.trail)
             for c in g.ifs:
-                v = self.eval(c, e)
+                self.nofork = True
+                try:
+                    v = self.eval(c, e)
+                finally:
+                    self.nofork = False
                 if isinstance(v, bool):
                     acc.append(z3.BoolVal(v))
                 elif isinstance(v, SBool):
@@ -1892,6 +1904,7 @@ def _fp_eq(interp, a, b):
 # ---------------------------------------------------------------------------------------------
 
 def _m_isinstance(interp, v, cls):
+    v = interp.resolve(v)
     if not isinstance(v, Sym):
         return isinstance(v, cls)
     if isinstance(cls, tuple):
